@@ -84,8 +84,10 @@ def invariant_basis(system):
     # gap check
     if np.any((s_full >= 1e-10) & (s_full < 1e-6)):
         raise AssertionError("no clean singular-value gap for %s" % system)
-    B = vt[null].T
-    Bperp = vt[~null].T
+    B = vt[null].T.copy()
+    Bperp = vt[~null].T.copy()
+    B[np.abs(B) < 1e-13] = 0.0
+    Bperp[np.abs(Bperp) < 1e-13] = 0.0
     if B.shape[1] != EXPECTED_DIM[system]:
         raise AssertionError("dimension of invariants for %s is %d" % (system, B.shape[1]))
     return B, Bperp
@@ -124,7 +126,10 @@ def complete(system, keys, values):
     B, _ = invariant_basis(system)
     idx = index_of(keys)
     A = B[idx, :]
-    coef, *_ = np.linalg.lstsq(A, np.asarray(values, dtype=float).T, rcond=None)
+    # pseudo-inverse with an ABSOLUTE singular-value cut-off (rows of B that vanish up to rounding must not be fitted)
+    u, sv, vt = np.linalg.svd(A, full_matrices=False)
+    inv = np.where(sv > 1e-9, 1.0 / np.where(sv > 1e-9, sv, 1.0), 0.0)
+    coef = (vt.T * inv) @ (u.T @ np.asarray(values, dtype=float).T)
     w = (B @ coef).T
     d2 = np.sum((w[:, idx] - np.asarray(values, dtype=float)) ** 2, axis=1)
     return w, d2
